@@ -129,8 +129,14 @@ let run mode file =
           else Some (name, Node.bucket_header_value BinNums.N0 seq)
         | _ -> report (want04 || want07) "MISMATCH" "tree_model" "commit succeeded" ("model: child " ^ hex_of_bytes name ^ " inconsistent"); ok := false; None) !children in
       if !ok then begin
-        match Tree.commit_parent !ps !fill fuel t !order values with
-        | Base.Ok (mt, mevs) ->
+        match Tree.commit_parent_bucket !ps !fill fuel t !order values with
+        | Base.Ok ((mt, mevs), minl) ->
+          let iinl = (int_of_n (hd p).Tree.h_pgid = 0) in
+          if minl then flag "parent-inline-after";
+          if minl <> iinl then report want04 "MISMATCH" "parent_inline_decision" (string_of_bool iinl) (string_of_bool minl);
+          (* the published format: an inline bucket holds plain key/value pairs only - a nested bucket inside it is walked by no page walker *)
+          if iinl && List.exists (fun (x : Node.inode) -> int_of_n x.Node.i_flags land 1 = 1) (ins p) then
+            report want07 "PROPFAIL" "inline_bucket_holds_no_bucket" "an inline bucket holds a nested bucket entry" "never inline";
           let d = ndiff "" mt p in
           if d <> "" then report want04 "MISMATCH" "parent_tree_after_commit" d "see impl";
           let iev = !fl in
